@@ -301,7 +301,7 @@ fn judge_source(rep: &mut Report, what: &str, src: &[u8], info: &Value, rename_s
 
 // ------------------------------------------------------------------------------------------------ scenario plan
 #[derive(Clone, Debug)]
-enum Spec { S1(u64, u64), S2a(usize), S2b, S3(u64, u64), S4(u32, bool), S5(u64) }
+enum Spec { S1(u64, u64), S2a(usize), S2b, S3(u64, u64), S4(u32, bool, usize), S5(u64) }
 
 /// (the block that carries every coverage obligation — also the whole quick plan, what the thorough tier adds)
 fn plan(tier: Tier) -> (Vec<Spec>, Vec<Spec>) {
@@ -311,7 +311,12 @@ fn plan(tier: Tier) -> (Vec<Spec>, Vec<Spec>) {
         for (i, k) in ks.iter().enumerate() { if round == 0 || (i as u64 + round) % 3 == 0 { v.push(Spec::S2a(*k)); } }
         for i in 0..20u64 { let (var, sub) = if i < 4 { (0, i) } else if i < 9 { (1, i - 4) } else { (2, i - 9) }; v.push(Spec::S3(var, sub + round * 5)); }
         for i in 0..16u64 { v.push(Spec::S5(i + round * 16)); }
-        if round % 8 == 0 { v.push(Spec::S4(65535, false)); v.push(Spec::S4(65535, true)); v.push(Spec::S4(65534, false)); }
+        if round % 8 == 0 {
+            v.push(Spec::S4(65535, false, 0)); v.push(Spec::S4(65535, true, 0)); v.push(Spec::S4(65534, false, 0));
+            // after the renaming the writer needs 1 / 2 slots more than the source had: a two-slot constant ending exactly at the limit (must be
+            // written or refused), one slot beyond it and two beyond it (must be refused, never written with a half constant)
+            v.push(Spec::S4(65534, true, 1)); v.push(Spec::S4(65535, true, 1)); v.push(Spec::S4(65535, true, 2)); v.push(Spec::S4(65533, true, 2)); v.push(Spec::S4(65535, false, 1));
+        }
         for _ in 0..24 { v.push(Spec::S2b); }
     };
     let mut first = vec![];
@@ -325,10 +330,10 @@ fn plan(tier: Tier) -> (Vec<Spec>, Vec<Spec>) {
 fn build_scenario(spec: &Spec, rng: &mut Rng) -> Result<(scen::Scn, Vec<u8>), String> {
     let lay = emit::Layout::canonical();
     match spec {
-        Spec::S4(want, last_long) => {
+        Spec::S4(want, last_long, shared) => {
             // adjust the number of constants until the source pool has exactly `want` slots
             let count = |n: usize, extra: usize| -> Result<(scen::Scn, Vec<u8>, i64), String> {
-                let s = scen::s4(n, extra, *last_long);
+                let s = scen::s4(n, extra, *last_long, *shared);
                 let b = emit::emit_front(&s.class, &lay, &s.front).map_err(|e| format!("s4 emit: {e}"))?;
                 let pc = u16::from_be_bytes([b[8], b[9]]) as i64;
                 Ok((s, b, pc))
